@@ -654,6 +654,10 @@ impl Session {
             }
             let f = self.fault();
             if f == Fault::CloseOnMessage as u8 {
+                // the message was received (and is logged) but the server dies before answering
+                let tags = if msg.code == b'Q' { scan_tags(&String::from_utf8_lossy(&msg.body)) } else { vec![] };
+                let snap = self.snap();
+                self.ev(EvKind::Rx { code: msg.code, raw: msg.encode(), tags, sql: None, own: false, snap });
                 break;
             }
             let reply = self.handle(msg);
@@ -679,6 +683,11 @@ impl Session {
             if let Some(k) = reply.dir.close_at {
                 bytes.truncate(k.min(bytes.len()));
                 close = true;
+            }
+            let mut hang_after_write = false;
+            if let Some(k) = reply.dir.hang_after {
+                bytes.truncate(k.min(bytes.len()));
+                hang_after_write = true;
             }
             if self.shared.capture_tx.load(Ordering::Relaxed) {
                 self.ev(EvKind::Tx { bytes: bytes.clone(), for_seq: rx_seq });
@@ -707,6 +716,10 @@ impl Session {
                         tokio::time::sleep(Duration::from_micros(200)).await;
                     }
                 }
+            }
+            if hang_after_write {
+                let _ = sock.flush().await;
+                std::future::pending::<()>().await;
             }
             if close {
                 break;
@@ -1519,6 +1532,9 @@ fn merge_dir(acc: &mut Directive, d: &Directive) {
     }
     if d.close_at.is_some() {
         acc.close_at = d.close_at;
+    }
+    if d.hang_after.is_some() {
+        acc.hang_after = d.hang_after;
     }
     acc.delay_ms = acc.delay_ms.max(d.delay_ms);
 }
